@@ -1,6 +1,6 @@
 (* C16 Serde form is exactly the string form. Model: Serialize = collect_str(Display), Deserialize = visit_str then from_str, no other visit method. *)
 Load "coq/props/Hdr".
-From PM Require Import BuildG C01P C16.
+From PM Require Import BuildG C01P C05 C16.
 Lemma src_rt : rt_ok cfg. Proof. prove_rt. Qed.
 Lemma src_cfg_ok : cfg_ok cfg. Proof. sc. Qed.
 Theorem C16_deserialize_is_parse : forall (T E : Type) (sh : shape T E) e f s, de cfg sh e (VStr f s) = parse cfg sh s.
@@ -9,6 +9,13 @@ Print Assumptions C16_deserialize_is_parse.
 Theorem C16_non_strings_refused : forall (T E : Type) (sh : shape T E) e, de cfg sh e VOther = Err e.
 Proof. intros. apply C16_other. Qed.
 Print Assumptions C16_non_strings_refused.
+Theorem C16_byte_arrays_refused : forall (T E : Type) (sh : shape T E) e b, de cfg sh e (VBytes b) = Err e.
+Proof. intros. apply C16_bytes. Qed.
+Print Assumptions C16_byte_arrays_refused.
+(* a char value reaches visit_str as a one-character string (serde's default visit_char), and is refused like every string without the scheme *)
+Theorem C16_char_values_refused : forall (T E : Type) (sh : shape T E) e c, de cfg sh e (VChar c) = Err (sh_inj sh EScheme).
+Proof. intros T E sh e c. rewrite C16_char. apply C05_scheme. apply strip_pkg_enc1. Qed.
+Print Assumptions C16_char_values_refused.
 Theorem C16_round_trip_generic : forall e s t p, parse cfg G s = Ok (t, p) -> ser cfg G (t, p) = VStr Owned (format cfg G t p) /\ de cfg G e (ser cfg G (t, p)) = Ok (t, p).
 Proof.
   intros e s t p H. split; [reflexivity|]. apply C16_roundtrip. cbn [fst snd].
